@@ -70,8 +70,12 @@ def check_message(R, corpus, view, cont, path, fns, bounds, kind, sd):
             res['shapes'] += 1
             res['paths'] += stats['paths']
             res['maxlen'] = max(res['maxlen'], stats['len'])
+            seenk = set()
             for f in findings:
                 f.shape = label
+                if f.kind in seenk:
+                    continue
+                seenk.add(f.kind)
                 res['findings'].append({'kind': f.kind, 'what': f.what, 'body': f.bytes, 'shape': label, 'detail': f.detail})
             if findings:
                 break   # one counterexample per message is enough
